@@ -326,8 +326,17 @@ fn extra_programs() -> Vec<ArgCase> {
 // Call histories
 // ---------------------------------------------------------------------------
 
-pub const EVENTS: usize = 6;
-pub const EVENT_NAMES: [&str; EVENTS] = ["call STATIC S", "call O (calls S)", "call P", "Show F(1) (STATIC function as argument)", "recursive R(2)", "assign SHARED G"];
+pub const EVENTS: usize = 8;
+pub const EVENT_NAMES: [&str; EVENTS] = [
+    "call STATIC S",
+    "call O (calls S)",
+    "call P",
+    "Show F(1) (STATIC function as argument)",
+    "recursive R(2)",
+    "assign SHARED G",
+    "call STATIC Tally (calls S)",
+    "Deep 2 (recursive ordinary SUB: S at the bottom, Tally on the way back)",
+];
 
 /// The program for a history of events; `in_sub`: the events run inside an ordinary SUB.
 pub fn history_program(events: &[usize], in_sub: bool) -> Prog {
@@ -341,6 +350,8 @@ pub fn history_program(events: &[usize], in_sub: bool) -> Prog {
             2 => seq.push(b.s(K::Call("P".into(), vec![]))),
             3 => seq.push(b.s(K::Call("Show".into(), vec![bin(BinOp::Add, call("F%", vec![num(1)]), num(0))]))),
             4 => seq.push(b.print(vec![st("R"), call("R%", vec![num(2)])])),
+            6 => seq.push(b.s(K::Call("Tally".into(), vec![]))),
+            7 => seq.push(b.s(K::Call("Deep".into(), vec![num(2)]))),
             _ => seq.push(b.assign(var("G%"), bin(BinOp::Add, var("G%"), num(1)))),
         }
     }
@@ -376,6 +387,24 @@ pub fn history_program(events: &[usize], in_sub: bool) -> Prog {
     ];
     let body = vec![b.s(K::If { arms: vec![(bin(BinOp::Le, var("N%"), num(0)), then)], els: Some(els), single_line: false })];
     subs.push(mk(&mut b, "R%", true, vec![p_int("N%")], body, false));
+    // a second STATIC sub with its own counter, calling the first one
+    let body = vec![
+        b.assign(var("D%"), bin(BinOp::Add, var("D%"), num(10))),
+        b.print(vec![st("T"), var("D%")]),
+        b.s(K::Call("S".into(), vec![])),
+        b.print(vec![st("T2"), var("D%")]),
+    ];
+    subs.push(mk(&mut b, "Tally", false, vec![], body, true));
+    // a recursive ordinary SUB with a local per activation: S at the bottom, Tally on the way back
+    let then = vec![b.s(K::Call("Deep".into(), vec![bin(BinOp::Sub, var("N%"), num(1))]))];
+    let els = vec![b.s(K::Call("S".into(), vec![]))];
+    let body = vec![
+        b.assign(var("L%"), bin(BinOp::Add, var("N%"), num(50))),
+        b.s(K::If { arms: vec![(bin(BinOp::Gt, var("N%"), num(0)), then)], els: Some(els), single_line: false }),
+        b.s(K::Call("Tally".into(), vec![])),
+        b.print(vec![st("D"), var("N%"), var("L%")]),
+    ];
+    subs.push(mk(&mut b, "Deep", false, vec![p_int("N%")], body, false));
     let main = if in_sub {
         let id = b.id();
         subs.push(SubDef { id, name: "Driver".into(), is_function: false, params: vec![], body: seq, is_static: false });
